@@ -15,7 +15,7 @@ pub fn def() -> PropDef {
         run,
         shrink: Shrink::Bytes,
         render: render_seq_or_bytes,
-        rule: "A = every input the real parsers accept in the v1 universes, UX, U2-ctl, U2-len (stride), U2-sig, U2-addr, U2-byte; each is re-parsed (v1 bytes, v1 text, v2, auto) as reported-header-only, as header ++ t and as input ++ t for every trailer t in T (all 256 single bytes, all 64 pairs over {0 . : a SP CR LF NUL}, a v1 header, a v2 header, 600 x); results must be identical and the reported length must be first-CR+2 (v1) or 16+declared length (v2); non-trivial = accepted by some entry point; distinct = hash of the input",
+        rule: "A = every input the real parsers accept in the v1 universes, UX, U2-ctl, U2-len (stride), U2-sig, U2-addr, U2-byte; each is re-parsed (v1 bytes, v1 text, v2, auto) as reported-header-only, as header ++ t and as input ++ t for every trailer t in T (all 256 single bytes, all 64 pairs over {0 . : a SP CR LF NUL}, a v1 header, a v2 header, 600 x, nine 300-byte texts of 2-/3-/4-byte characters at every alignment, four 300-byte fills of 0x80 / 0xC3 / CR / LF); results must be identical and the reported length must be first-CR+2 (v1) or 16+declared length (v2); non-trivial = accepted by some entry point; distinct = hash of the input",
         assumptions: &["trailers longer than 2 bytes are the three structured ones; longer arbitrary trailers are covered by the byte-tree universes themselves (an accepted stem followed by every string up to depth d)"],
     }
 }
@@ -36,6 +36,22 @@ pub fn trailers() -> &'static Vec<Vec<u8>> {
         t.push(u1::baselines()[0].clone());
         t.push(u2::baseline_headers()[0].clone());
         t.push(vec![b'x'; 600]);
+        // alignment-complete text: whatever the header length, some trailer puts a 2-, 3- and 4-byte
+        // character across every absolute offset of the buffer up to +300 (a parser that looks at a fixed
+        // offset of the buffer, e.g. a scan window, then meets every way a character can straddle it)
+        for (ch, w) in [("\u{e9}", 2usize), ("\u{20ac}", 3), ("\u{1f600}", 4)] {
+            for pad in 0..w {
+                let mut v = vec![b'x'; pad];
+                while v.len() < 300 {
+                    v.extend_from_slice(ch.as_bytes());
+                }
+                t.push(v);
+            }
+        }
+        // the same for raw bytes: 0x80 / 0xC3 / CR / LF fills (not text: byte entry points only)
+        for b in [0x80u8, 0xc3, b'\r', b'\n'] {
+            t.push(vec![b; 300]);
+        }
         t
     })
 }
@@ -241,4 +257,5 @@ pub fn run(run: &Run) {
     run.explore(&u2::byte_universe(run.tier.pick(3, 4)));
     explore_all(run, &seq_universes(run.tier, true, true));
     run.explore(&super::c11::EmbeddedStructured::new(false));
+    run.explore(&super::c11::NearMaxStructured { span: run.tier.pick(8, 35) });
 }
